@@ -1,4 +1,4 @@
-import Httpcache.Proofs.Csv
+import Httpcache.Proofs.CcRender
 /-
 C12 — Equivalent spellings of Cache-Control behave identically.
 
@@ -40,6 +40,41 @@ example : closedElem (str% " private=\"a, b\" ") = true := by decide
 /-- (test) a quoted-string ending in an escaped backslash closes where it should -/
 example : trimmedCSV (str% "max-age=3600, ext=\"C:\\\\\", no-store") = [str% "max-age=3600", str% "ext=\"C:\\\\\"", str% "no-store"] := by decide
 
+
+/-- THE COMPOSED STATEMENT. A Cache-Control value written as any number of field lines, each a list of
+    elements — directives whose names are in any letter case, optional white space around every
+    element, empty elements, arguments as token or as quoted-string — is read as the insertion, in
+    order, of (canonical lower-case name, argument text) of its directives, and of nothing else. -/
+theorem spelling_is_irrelevant (lines : List (List Elem)) (hne : ∀ l ∈ lines, l ≠ []) (ok : ∀ l ∈ lines, ∀ e ∈ l, e.OK) :
+    parseCC (ccHeader lines) = dInsertAll [] (lines.flatten.filterMap Elem.pair?) :=
+  parse_render lines hne ok
+
+/-- hence two ways of writing the same directives (same names up to case, same argument texts, same
+    order; any white space, empty elements and line splits) are parsed identically -/
+theorem same_directives_same_parse (l1 l2 : List (List Elem)) (h1 : ∀ l ∈ l1, l ≠ []) (h2 : ∀ l ∈ l2, l ≠ [])
+    (ok1 : ∀ l ∈ l1, ∀ e ∈ l, e.OK) (ok2 : ∀ l ∈ l2, ∀ e ∈ l, e.OK)
+    (h : l1.flatten.filterMap Elem.pair? = l2.flatten.filterMap Elem.pair?) :
+    parseCC (ccHeader l1) = parseCC (ccHeader l2) := by
+  rw [parse_render l1 h1 ok1, parse_render l2 h2 ok2, h]
+
+/-- non-vacuity (a test): `No-Store` on a second line after ` MAX-AGE="5" ,, ` -/
+example : parseCC (ccHeader [[.dir ⟨str% "max-age", some (str% "5")⟩ ⟨str% "MAX-AGE", [' '], [' '], true⟩, .empty [], .empty [' ']],
+                             [.dir ⟨str% "no-store", none⟩ ⟨str% "No-Store", [], ['\t'], false⟩]]) =
+    dInsertAll [] [(str% "max-age", str% "\"5\""), (str% "no-store", [])] := by
+  rw [spelling_is_irrelevant]
+  · rfl
+  · intro l hl; simp at hl; rcases hl with rfl | rfl <;> simp
+  · intro l hl e he
+    simp at hl
+    rcases hl with rfl | rfl
+    · simp at he
+      rcases he with rfl | rfl | rfl
+      · exact ⟨by decide, by decide, by decide, (by intro a ha; cases ha; decide), by decide, by decide⟩
+      · show ([] : Str).all isTextprotoSpace = true; rfl
+      · show ([' '] : Str).all isTextprotoSpace = true; decide
+    · simp at he
+      subst he
+      exact ⟨by decide, by decide, by decide, (by intro a ha; cases ha), by decide, by decide⟩
 
 /-- several Cache-Control field lines are read as one comma-separated list (RFC 9110 §5.3) -/
 theorem field_lines_combined (h : Header) :
